@@ -52,8 +52,8 @@ def exp(a):
 
 
 SYMBOLS = {"self.lmbda": "L", "self.shift": "S", "self._lmbda": "L", "self._shift": "S", "self.len_rescaled": "l", "np.pi": "PI", "math.pi": "PI"}
-FUNCS = {"np.arctan": "atan", "np.tan": "tan", "sps.erf": "erf", "sps.erfinv": "erfinv", "sps.gamma": "gamma", "math.atan": "atan", "math.tan": "tan"}
-INVERSE = {"atan": "tan", "tan": "atan", "erf": "erfinv", "erfinv": "erf"}
+FUNCS = {"np.sin": "sin", "np.arcsin": "asin", "np.arctan": "atan", "np.tan": "tan", "sps.erf": "erf", "sps.erfinv": "erfinv", "sps.gamma": "gamma", "math.atan": "atan", "math.tan": "tan"}
+INVERSE = {"atan": "tan", "tan": "atan", "erf": "erfinv", "erfinv": "erf", "sin": "asin", "asin": "sin"}
 
 
 def from_ast(e, x_names, sign, subst=None):
@@ -111,6 +111,9 @@ def from_ast(e, x_names, sign, subst=None):
             return pw(args[0], num(Fraction(1, 2)))
         if fn in FUNCS and len(args) == 1:
             return ("fn", FUNCS[fn], args[0])
+        if fn in ("np.maximum", "np.minimum") and len(args) == 2 and not depends(args[1]) and depends(args[0]):
+            # clamping to a constant bound is the identity inside the bound (the caller states the domain it argues for)
+            return args[0]
         if fn in ("np.abs", "np.absolute", "abs") and len(args) == 1:
             if args[0] == sym("x"):
                 return sym("x") if sign > 0 else neg(sym("x"))
@@ -462,7 +465,7 @@ def canon(t):
                     v *= x
                     x += 1
                 return vmul(vconst(v), vpow(canon(sym("PI")), vconst(Fraction(1, 2))))
-        if f in ("atan", "tan", "erf", "erfinv") and not a:
+        if f in ("atan", "tan", "erf", "erfinv", "sin", "asin") and not a:
             return {}  # f(0) = 0 for all four
         # f(f^-1(A)) = A
         if len(a) == 1:
